@@ -152,29 +152,28 @@ func ruleCommitOrder(r *Report, withC11, withC06 bool) {
 	}
 	if withC06 {
 		h := r.Rule("C06.emitorder", "P", "a block's commit is emitted (logger, recorder) only after its updates and markers were applied, i.e. after merges were rewritten to puts", 2)
-		apps := callsWhere(cb, func(_ ssa.Instruction, cc *ssa.CallCommon) bool { return isLoggerAppend(cc) || isRecorderAppend(cc) })
+		apps := callsWhereDeep(cb, func(_ ssa.Instruction, cc *ssa.CallCommon) bool { return isLoggerAppend(cc) || isRecorderAppend(cc) })
 		if len(apps) == 0 {
 			h.Unknown(fnName(cb)+"/appends", r.P.Pos(cb.Pos()), "no Append call recognised in the commit callback")
 		}
-		for i, a := range apps {
+		for _, a := range apps {
 			ok := true
 			for _, x := range append(append([]ssa.Instruction{}, upd...), mrk...) {
-				if canReach(a, x) {
+				if a.Site == x || canReach(a.Site, x) {
 					ok = false
 				}
 			}
 			for _, u := range upd {
-				if !precedes(u, a) {
+				if !precedes(u, a.Site) {
 					ok = false
 				}
 			}
-			cc, _, _ := callCommon(a)
+			cc, _, _ := callCommon(a.Inner)
 			kind := "logger"
 			if isRecorderAppend(cc) {
 				kind = "recorder"
 			}
-			_ = i
-			h.Check(ok, fnName(cb)+"/"+kind, r.P.InstrPos(a), "apply ≺ append", "the commit is appended before the block's updates/markers are applied: consumers receive merge deltas or miss the row changes")
+			h.Check(ok, fnName(cb)+"/"+kind, r.P.InstrPos(a.Inner), "apply ≺ append", "the commit is appended before the block's updates/markers are applied: consumers receive merge deltas or miss the row changes")
 		}
 	}
 }
@@ -186,50 +185,45 @@ func ruleEmitOnce(r *Report) {
 	if cb == nil {
 		return
 	}
-	leaf := func(cond ssa.Value) (string, bool) {
-		// *changedRows
-		if u, ok := cond.(*ssa.UnOp); ok && u.Op == token.MUL {
-			if fv, ok := u.X.(*ssa.FreeVar); ok && fv.Name() == "changedRows" {
-				return "changedRows", true
-			}
-		}
-		if fv, ok := cond.(*ssa.FreeVar); ok && fv.Name() == "changedRows" {
-			return "changedRows", true
-		}
-		if c, ok := extractOf(cond, 0); ok && calleeIs(&c.Call, "(*column.Txn).commitUpdates") {
-			return "updated", true
-		}
-		if c, ok := extractOf(throughCell(cond), 0); ok && calleeIs(&c.Call, "(*column.Txn).commitUpdates") {
-			return "updated", true
-		}
-		if c, ok := extractOf(cond, 1); ok && calleeIs(&c.Call, "(*column.Collection).isSnapshotting") {
-			return "recording", true
-		}
-		if x, nonNil, ok := nilTest(cond); ok && nonNil {
-			if fr, ok := loadedField(x); ok && fr.Struct == "column.Txn" && fr.Field == "logger" {
-				return "logger", true
-			}
-		}
-		return "", false
+	isChangedRows := func(v ssa.Value) bool {
+		c, ok := extractOf(norm(v), 1)
+		return ok && calleeIs(&c.Call, "(*column.Txn).findMarkers")
 	}
-	// changedRows must really be the second result of findMarkers: checked in commit()
-	okAll, why := evalPaths(cb, leaf, []string{"changedRows", "updated", "recording", "logger"}, func(as map[string]bool, path []*ssa.BasicBlock) bool {
-		nl, nr, napply := 0, 0, 0
-		for _, b := range path {
-			for _, ins := range b.Instrs {
-				if cc, _, _ := callCommon(ins); cc != nil {
-					if isLoggerAppend(cc) {
-						nl++
-					}
-					if isRecorderAppend(cc) {
-						nr++
-					}
-					if calleeIs(cc, "(*column.Txn).commitUpdates") {
-						napply++
-					}
-				}
+	leaf := func(cond ssa.Value) (string, bool, bool) {
+		if isChangedRows(cond) {
+			return "changedRows", false, true
+		}
+		if c, ok := extractOf(norm(cond), 0); ok && calleeIs(&c.Call, "(*column.Txn).commitUpdates") {
+			return "updated", false, true
+		}
+		if c, ok := extractOf(norm(cond), 1); ok && calleeIs(&c.Call, "(*column.Collection).isSnapshotting") {
+			return "recording", false, true
+		}
+		if x, nonNil, ok := nilTest(cond); ok {
+			if fr, ok := loadedField(norm(x)); ok && fr.Struct == "column.Txn" && fr.Field == "logger" {
+				return "logger", !nonNil, true
+			}
+			// the recorder returned by isSnapshotting is non-nil exactly when recording
+			if c, ok := extractOf(norm(x), 0); ok && calleeIs(&c.Call, "(*column.Collection).isSnapshotting") {
+				return "recording", !nonNil, true
 			}
 		}
+		return "", false, false
+	}
+	cfg := pathCfg{leaf: leaf, names: []string{"changedRows", "updated", "recording", "logger"}, classify: func(ins ssa.Instruction) string {
+		if cc, _, _ := callCommon(ins); cc != nil {
+			switch {
+			case isLoggerAppend(cc):
+				return "logger"
+			case isRecorderAppend(cc):
+				return "recorder"
+			case calleeIs(cc, "(*column.Txn).commitUpdates"):
+				return "apply"
+			}
+		}
+		return ""
+	}}
+	okAll, why := evalPathsDeep(cb, cfg, func(as map[string]bool, ev []pathEvent, _ *ssa.Return) bool {
 		changed := as["changedRows"] || as["updated"]
 		wantL, wantR := 0, 0
 		if changed && as["logger"] {
@@ -238,26 +232,30 @@ func ruleEmitOnce(r *Report) {
 		if changed && as["recording"] {
 			wantR = 1
 		}
-		return nl == wantL && nr == wantR && napply == 1
+		return countEvents(ev, "logger") == wantL && countEvents(ev, "recorder") == wantR && countEvents(ev, "apply") == 1
 	})
 	if okAll {
-		h.OK(fnName(cb), r.P.Pos(cb.Pos()), "16 guard valuations × all paths: appends as required")
+		h.OK(fnName(cb), r.P.Pos(cb.Pos()), "16 guard valuations × all paths (helpers inlined): appends as required")
 	} else {
 		h.Bad(fnName(cb), r.P.Pos(cb.Pos()), "for some path of the commit callback the number of logger/recorder appends differs from what the block's changes require ("+why+")")
 	}
 	// changedRows is findMarkers' second result; markers applied iff changedRows
 	commit := r.Anchor("(*column.Txn).commit")
 	if commit != nil {
+		// some branch condition of the callback (deep) is findMarkers' second result, and the call of
+		// commitMarkers is guarded by it
 		ok := false
-		allInstrs(commit, func(ins ssa.Instruction) {
-			if st, isSt := ins.(*ssa.Store); isSt {
-				if al, isAl := st.Addr.(*ssa.Alloc); isAl && al.Comment == "changedRows" {
-					if c, isEx := extractOf(st.Val, 1); isEx && calleeIs(&c.Call, "(*column.Txn).findMarkers") {
-						ok = true
+		for _, f := range deepFuncs(cb) {
+			for _, b := range f.Blocks {
+				if iff, isIf := b.Instrs[len(b.Instrs)-1].(*ssa.If); isIf {
+					for _, lf := range condLeaves(iff.Cond) {
+						if isChangedRows(lf) {
+							ok = true
+						}
 					}
 				}
 			}
-		})
+		}
 		h.Check(ok, "(*column.Txn).commit/changedRows", r.P.Pos(commit.Pos()), "changedRows = findMarkers().ok", "the flag that decides whether rows changed is not the result of findMarkers")
 	}
 	// commitUpdates reports "some column was updated": its result starts false and can only become true
@@ -405,8 +403,9 @@ func ruleEmitFields(r *Report) {
 	if cb == nil {
 		return
 	}
-	apps := callsWhere(cb, func(_ ssa.Instruction, cc *ssa.CallCommon) bool { return isLoggerAppend(cc) || isRecorderAppend(cc) })
-	for _, a := range apps {
+	apps := callsWhereDeep(cb, func(_ ssa.Instruction, cc *ssa.CallCommon) bool { return isLoggerAppend(cc) || isRecorderAppend(cc) })
+	for _, dc := range apps {
+		a := dc.Inner
 		cc, _, _ := callCommon(a)
 		kind := "logger"
 		if isRecorderAppend(cc) {
@@ -769,7 +768,7 @@ func ruleRelease(r *Report) {
 	if rb != nil {
 		found := false
 		var pos ssa.Instruction
-		withClosures(rb, func(f *ssa.Function) {
+		for _, f := range deepFuncs(rb) {
 			for _, l := range FindArmLoops(r.P, f) {
 				for _, e := range l.May(opInsert, "presence-clear") {
 					if fr, ok := fieldOf(e.Target); ok && fr.Struct == "column.Collection" && fr.Field == "fill" {
@@ -780,7 +779,7 @@ func ruleRelease(r *Report) {
 					}
 				}
 			}
-		})
+		}
 		if found {
 			h.OK("(*column.Txn).rollback/markers", r.P.InstrPos(pos), "Insert marker ⇒ fill bit cleared")
 		} else {
@@ -788,7 +787,7 @@ func ruleRelease(r *Report) {
 		}
 		// recount after
 		rec := false
-		allInstrs(rb, func(ins ssa.Instruction) {
+		deepVisit(rb, func(ins, _ ssa.Instruction) {
 			if c, ok := ins.(*ssa.Call); ok && calleeIs(&c.Call, "sync/atomic.StoreUint64") {
 				if fr, ok := fieldOf(c.Call.Args[0]); ok && fr.Field == "count" {
 					rec = true
@@ -948,10 +947,8 @@ func ruleCommitUpdates(r *Report) {
 	if cu == nil {
 		return
 	}
-	ranges := callsTo(cu, false, "(*commit.Reader).Range")
 	type pass struct {
-		call    ssa.Instruction
-		fn      *ssa.Function
+		dc      deepCall
 		main    bool
 		rest    bool
 		bufOK   bool
@@ -959,11 +956,11 @@ func ruleCommitUpdates(r *Report) {
 	}
 	var passes []*pass
 	chunkPar := cu.Params[1]
-	for _, c := range ranges {
-		cc, _, _ := callCommon(c)
-		p := &pass{call: c}
-		// buffer argument: element of txn.updates (the loop variable)
-		if ld, ok := cc.Args[1].(*ssa.UnOp); ok {
+	for _, dc := range callsToDeep(cu, false, "(*commit.Reader).Range") {
+		cc, _, _ := callCommon(dc.Inner)
+		p := &pass{dc: dc}
+		// buffer argument: an element of txn.updates (the loop variable)
+		if ld, ok := norm(cc.Args[1]).(*ssa.UnOp); ok {
 			if ia, ok := ld.X.(*ssa.IndexAddr); ok {
 				if fr, ok := loadedField(ia.X); ok && fr.Struct == "column.Txn" && fr.Field == "updates" {
 					p.bufOK = true
@@ -972,18 +969,56 @@ func ruleCommitUpdates(r *Report) {
 		}
 		p.chunkOK = sameExpr(cc.Args[2], chunkPar)
 		if cf := asFunc(cc.Args[3]); cf != nil {
-			p.fn = cf
-			for _, a := range callsTo(p.fn, false, "(*column.column).Apply") {
-				acc, _, _ := callCommon(a)
-				// receiver: columns[0] or element of columns[1:]
-				if ld, ok := acc.Args[0].(*ssa.UnOp); ok {
-					if ia, ok := ld.X.(*ssa.IndexAddr); ok {
-						if idx, isC := constInt(ia.Index); isC && idx == 0 {
-							p.main = true
-						} else if sl, isSl := ia.X.(*ssa.Slice); isSl {
-							if lo, isC := constInt(sl.Low); isC && lo == 1 && sl.High == nil {
-								p.rest = reachAvoiding(a.Block(), a.Block(), nil, nil) // inside the loop over cols[1:]
+			for _, f := range deepFuncs(cf) {
+				for _, a := range callsTo(f, false, "(*column.column).Apply") {
+					acc, _, _ := callCommon(a)
+					ld, ok := norm(acc.Args[0]).(*ssa.UnOp)
+					if !ok {
+						continue
+					}
+					ia, ok := ld.X.(*ssa.IndexAddr)
+					if !ok {
+						continue
+					}
+					if idx, isC := constInt(ia.Index); isC && idx == 0 {
+						p.main = true
+						continue
+					}
+					inLoop := reachAvoiding(a.Block(), a.Block(), nil, nil)
+					// for _, v := range columns[1:]
+					if sl, isSl := norm(ia.X).(*ssa.Slice); isSl {
+						if lo, isC := constInt(sl.Low); isC && lo == 1 && sl.High == nil && inLoop {
+							p.rest = true
+						}
+					}
+					// for i := 1; i < len(columns); i++ { columns[i] }
+					if phi, isPhi := strip(ia.Index).(*ssa.Phi); isPhi && inLoop {
+						from1, step := false, false
+						for _, e := range phi.Edges {
+							if c, isC := constInt(e); isC && c == 1 {
+								from1 = true
 							}
+							if bo, isB := e.(*ssa.BinOp); isB && bo.Op == token.ADD && bo.X == ssa.Value(phi) {
+								if one, isC := constInt(bo.Y); isC && one == 1 {
+									step = true
+								}
+							}
+						}
+						bound := false
+						for _, ref := range *phi.Referrers() {
+							if bo, isB := ref.(*ssa.BinOp); isB {
+								op, x, y, _, _ := canonBin(bo)
+								if op == token.LSS && x == ssa.Value(phi) {
+									if ln, isL := y.(*ssa.Call); isL {
+										if bi, isBI := ln.Call.Value.(*ssa.Builtin); isBI && bi.Name() == "len" && sameExpr(ln.Call.Args[0], ia.X) {
+											bound = true
+										}
+									}
+								}
+							}
+						}
+						if from1 && step && bound {
+							p.rest = true
 						}
 					}
 				}
@@ -993,7 +1028,7 @@ func ruleCommitUpdates(r *Report) {
 	}
 	var mainP, restP *pass
 	for _, p := range passes {
-		if p.main {
+		if p.main && mainP == nil {
 			mainP = p
 		}
 		if p.rest {
@@ -1003,36 +1038,39 @@ func ruleCommitUpdates(r *Report) {
 	h.Check(mainP != nil && mainP.bufOK && mainP.chunkOK, "main-pass", r.P.Pos(cu.Pos()), "cols[0].Apply over (buffer, block)", "the column itself is not applied for the buffer and block being committed")
 	h.Check(restP != nil && restP.bufOK && restP.chunkOK && restP != mainP, "computed-pass", r.P.Pos(cu.Pos()), "second Reader.Range over the same buffer and block visits all of cols[1:]", "computed columns (indexes, triggers, sorted indexes) do not get their own pass over the same buffer and block visiting all of cols[1:]")
 	if mainP != nil && restP != nil {
-		h.Check(canReach(mainP.call, restP.call) && !canReach(restP.call, mainP.call) || loopOrder(mainP.call, restP.call), "order", r.P.InstrPos(restP.call), "main pass ≺ computed pass", "computed columns are applied before the column itself: they see merge deltas instead of final values")
+		h.Check(deepPrecedes(mainP.dc, restP.dc) && !deepPrecedes(restP.dc, mainP.dc), "order", r.P.InstrPos(restP.dc.Inner), "main pass ≺ computed pass", "computed columns are applied before the column itself: they see merge deltas instead of final values")
 	}
 	// skip conditions of the buffer loop: only empty / row buffer / unknown column
 	ok, why := skipConditions(cu)
 	h.Check(ok, "skip", r.P.Pos(cu.Pos()), "buffers skipped only when empty, the row buffer, or of an unknown column", "a buffer can be skipped by commitUpdates for another reason: "+why)
 	if wr := r.Anchor("(*column.column).Apply"); wr != nil {
-		rew := callsTo(wr, false, "(*commit.Reader).Rewind")
+		rew := callsToDeep(wr, false, "(*commit.Reader).Rewind")
 		var app ssa.Instruction
 		allInstrs(wr, func(ins ssa.Instruction) {
 			if c, _, _ := callCommon(ins); c != nil && c.IsInvoke() && c.Method.Name() == "Apply" {
 				app = ins
 			}
 		})
-		h.Check(len(rew) == 1 && app != nil && precedes(rew[0], app), "(*column.column).Apply/rewind", r.P.Pos(wr.Pos()), "reader rewound before the column's Apply", "the wrapper does not rewind the reader before delegating: the second column applied to one reader sees no operations")
+		h.Check(len(rew) == 1 && app != nil && precedes(rew[0].Site, app), "(*column.column).Apply/rewind", r.P.Pos(wr.Pos()), "reader rewound before the column's Apply", "the wrapper does not rewind the reader before delegating: the second column applied to one reader sees no operations")
 	}
 }
 
-// loopOrder: both calls are in one loop body and a precedes b within an iteration.
-func loopOrder(a, b ssa.Instruction) bool {
-	return precedes(a, b)
+// deepPrecedes: a is executed before b on every path to b (sites in the searched function, or —
+// when both were found through the same call site — their positions inside the helper).
+func deepPrecedes(a, b deepCall) bool {
+	if a.Site != b.Site {
+		return precedes(a.Site, b.Site)
+	}
+	if a.Inner.Parent() == b.Inner.Parent() {
+		return precedes(a.Inner, b.Inner)
+	}
+	return false
 }
 
-// skipConditions: every If in commitUpdates whose one edge jumps back to the loop head without
-// applying is one of the recognised skip conditions.
+// skipConditions: every branch condition in commitUpdates (and the helpers it uses) is built from
+// the recognised skip tests only.
 func skipConditions(cu *ssa.Function) (bool, string) {
-	recognised := func(cond ssa.Value) bool {
-		c := cond
-		if inner, ok := isNot(c); ok {
-			c = inner
-		}
+	recognised := func(c ssa.Value) bool {
 		if call, ok := extractOf(c, 0); ok && calleeIs(&call.Call, "(*commit.Buffer).IsEmpty") {
 			return true
 		}
@@ -1043,31 +1081,41 @@ func skipConditions(cu *ssa.Function) (bool, string) {
 		}
 		if bo, ok := c.(*ssa.BinOp); ok {
 			// u.Column == rowColumn
-			if s, ok := constString(bo.Y); ok && s == "row" && (bo.Op == token.EQL || bo.Op == token.NEQ) {
-				if fr, ok := loadedField(bo.X); ok && fr.Struct == "commit.Buffer" && fr.Field == "Column" {
-					return true
+			for _, pair := range [][2]ssa.Value{{bo.X, bo.Y}, {bo.Y, bo.X}} {
+				if s, ok := constString(pair[1]); ok && s == "row" && (bo.Op == token.EQL || bo.Op == token.NEQ) {
+					if fr, ok := loadedField(pair[0]); ok && fr.Struct == "commit.Buffer" && fr.Field == "Column" {
+						return true
+					}
 				}
 			}
-			// len(columns) == 0 / len(columns) > 1
-			if call, ok := bo.X.(*ssa.Call); ok {
-				if b, ok := call.Call.Value.(*ssa.Builtin); ok && b.Name() == "len" {
-					return true
+			// len(x) compared with a constant / loop bookkeeping
+			for _, o := range []ssa.Value{bo.X, bo.Y} {
+				if call, ok := strip(o).(*ssa.Call); ok {
+					if b, ok := call.Call.Value.(*ssa.Builtin); ok && b.Name() == "len" {
+						return true
+					}
 				}
-			}
-			// range loop bookkeeping
-			if bo.Op == token.LSS {
-				return true
+				if _, isPhi := strip(o).(*ssa.Phi); isPhi {
+					return true // induction variable of a range/index loop
+				}
 			}
 		}
 		return false
 	}
-	for _, b := range cu.Blocks {
-		iff, ok := b.Instrs[len(b.Instrs)-1].(*ssa.If)
-		if !ok {
+	for _, f := range deepFuncs(cu) {
+		if f.Parent() != nil {
 			continue
 		}
-		if !recognised(iff.Cond) {
-			return false, "unrecognised condition in the buffer loop"
+		for _, b := range f.Blocks {
+			iff, ok := b.Instrs[len(b.Instrs)-1].(*ssa.If)
+			if !ok {
+				continue
+			}
+			for _, leaf := range condLeaves(iff.Cond) {
+				if !recognised(leaf) {
+					return false, "unrecognised condition in the buffer loop"
+				}
+			}
 		}
 	}
 	return true, ""
@@ -1159,14 +1207,14 @@ func ruleRegister(r *Report) {
 			continue
 		}
 		own, target := false, false
-		for _, c := range callsTo(fn, false, "(*column.columns).Store") {
-			cc, _, _ := callCommon(c)
+		for _, c := range callsToDeep(fn, false, "(*column.columns).Store") {
+			cc, _, _ := callCommon(c.Inner)
 			// Store(recv, name, main, index...)
 			variadicEmpty := isConstNil(cc.Args[3])
-			if sameExpr(cc.Args[1], fn.Params[1]) && variadicEmpty {
+			if c.same(cc.Args[1], fn.Params[1]) && variadicEmpty {
 				own = true // Store(indexName, index)
 			}
-			if sameExpr(cc.Args[1], fn.Params[2]) && !variadicEmpty {
+			if c.same(cc.Args[1], fn.Params[2]) && !variadicEmpty {
 				target = true // Store(columnName, column, index)
 			}
 		}
@@ -1196,11 +1244,16 @@ func ruleBackfill(r *Report) {
 		if fn == nil {
 			continue
 		}
-		snaps := callsTo(fn, false, "(*column.column).Snapshot")
-		apps := callsTo(fn, false, "(*column.column).Apply")
-		seeks := callsTo(fn, false, "(*commit.Reader).Seek")
-		if len(snaps) != 1 || len(apps) != 1 || len(seeks) != 1 {
+		snapsD := callsToDeep(fn, false, "(*column.column).Snapshot")
+		appsD := callsToDeep(fn, false, "(*column.column).Apply")
+		seeksD := callsToDeep(fn, false, "(*commit.Reader).Seek")
+		if len(snapsD) != 1 || len(appsD) != 1 || len(seeksD) != 1 {
 			h.Bad(name, r.P.Pos(fn.Pos()), "snapshot/seek/apply of the back-fill loop not found exactly once")
+			continue
+		}
+		snaps, apps, seeks := []ssa.Instruction{snapsD[0].Inner}, []ssa.Instruction{appsD[0].Inner}, []ssa.Instruction{seeksD[0].Inner}
+		if snaps[0].Parent() != apps[0].Parent() || snaps[0].Parent() != seeks[0].Parent() {
+			h.Bad(name, r.P.Pos(fn.Pos()), "snapshot, seek and apply of the back-fill loop are spread over several functions")
 			continue
 		}
 		sc, _, _ := callCommon(snaps[0])
@@ -1235,9 +1288,11 @@ func ruleBackfill(r *Report) {
 						}
 					}
 				}
-				if cmp != nil && cmp.Op == token.LSS {
-					if c, isCall := strip(cmp.Y).(*ssa.Call); isCall && calleeIs(&c.Call, "(*column.Collection).chunks") {
-						bound = true
+				if cmp != nil {
+					if op, _, y, _, _ := canonBin(cmp); op == token.LSS {
+						if c, isCall := norm(y).(*ssa.Call); isCall && calleeIs(&c.Call, "(*column.Collection).chunks") {
+							bound = true
+						}
 					}
 				}
 			}
@@ -1409,18 +1464,18 @@ func rulePool(r *Report) {
 		h.Check(okSetup && okOwner && okLogger, "(*column.txnPool).acquire", r.P.Pos(fn.Pos()), "owner, logger, setup=false", "acquire does not re-establish owner, logger and setup=false on the pooled transaction: it starts with the previous user's selection, collection or logger")
 	}
 	if fn := r.Anchor("(*column.Txn).initialize"); fn != nil {
-		clones := callsWhere(fn, func(_ ssa.Instruction, cc *ssa.CallCommon) bool {
+		clones := callsWhereDeep(fn, func(_ ssa.Instruction, cc *ssa.CallCommon) bool {
 			return methodOn(cc, "github.com/kelindar/bitmap", "Bitmap", "Clone")
 		})
 		ok := len(clones) == 1
 		if ok {
-			cc, _, _ := callCommon(clones[0])
+			cc, _, _ := callCommon(clones[0].Inner)
 			src, okS := loadedField(cc.Args[0])
 			dst, okD := fieldOf(cc.Args[1])
 			ok = okS && okD && src.Struct == "column.Collection" && src.Field == "fill" && dst.Struct == "column.Txn" && dst.Field == "index"
 			// only when not set up; sets the flag afterwards
 			if ok {
-				ok = edgeGuarded(clones[0].Block(), func(c ssa.Value) (bool, bool) {
+				ok = edgeGuarded(clones[0].Site.Block(), func(c ssa.Value) (bool, bool) {
 					if fr, isF := loadedField(c); isF && fr.Struct == "column.Txn" && fr.Field == "setup" {
 						return true, false
 					}
@@ -1491,46 +1546,66 @@ func ruleBlockLoops(r *Report) {
 		if fn == nil {
 			continue
 		}
-		ok := false
-		allInstrs(fn, func(ins ssa.Instruction) {
-			phi, isPhi := ins.(*ssa.Phi)
-			if !isPhi || !isNamed(phi.Type(), CommitPath, "Chunk") {
-				return
+		// limit ≡ len(txn.index) / 2^bitmapShift, in whatever spelling (shift, division, accessor)
+		isLimit := func(v ssa.Value) bool {
+			e, _ := normE(v, nil, true)
+			bo, isB := e.(*ssa.BinOp)
+			if !isB {
+				return false
 			}
-			init, step := false, false
-			for _, e := range phi.Edges {
-				if c, isC := constInt(e); isC && c == 0 {
-					init = true
+			op, x, _, c, isC := canonBin(bo)
+			if op != token.QUO || !isC || c != int64(1)<<uint(shift) {
+				return false
+			}
+			ln, isL := norm(x).(*ssa.Call)
+			if !isL {
+				return false
+			}
+			if b, isBI := ln.Call.Value.(*ssa.Builtin); !isBI || b.Name() != "len" {
+				return false
+			}
+			fr, isF := loadedField(ln.Call.Args[0])
+			return isF && fr.Struct == "column.Txn" && fr.Field == "index"
+		}
+		ok, loops := false, 0
+		for _, f := range deepFuncs(fn) {
+			allInstrs(f, func(ins ssa.Instruction) {
+				phi, isPhi := ins.(*ssa.Phi)
+				if !isPhi || !isNamed(phi.Type(), CommitPath, "Chunk") {
+					return
 				}
-				if bo, isB := e.(*ssa.BinOp); isB && bo.Op == token.ADD && bo.X == ssa.Value(phi) {
-					if one, isC := constInt(bo.Y); isC && one == 1 {
-						step = true
+				loops++
+				init, step := false, false
+				for _, e := range phi.Edges {
+					if c, isC := constInt(e); isC && c == 0 {
+						init = true
 					}
-				}
-			}
-			bound := false
-			for _, ref := range *phi.Referrers() {
-				bo, isB := ref.(*ssa.BinOp)
-				if !isB || bo.X != ssa.Value(phi) || bo.Op != token.LEQ {
-					continue
-				}
-				// limit = Chunk(len(txn.index) >> bitmapShift)
-				if sh, isS := strip(bo.Y).(*ssa.BinOp); isS && sh.Op == token.SHR {
-					if c, isC := constInt(sh.Y); isC && c == shift {
-						if ln, isL := sh.X.(*ssa.Call); isL {
-							if b, isBI := ln.Call.Value.(*ssa.Builtin); isBI && b.Name() == "len" {
-								if fr, isF := loadedField(ln.Call.Args[0]); isF && fr.Struct == "column.Txn" && fr.Field == "index" {
-									bound = true
-								}
-							}
+					if bo, isB := e.(*ssa.BinOp); isB && bo.Op == token.ADD && bo.X == ssa.Value(phi) {
+						if one, isC := constInt(bo.Y); isC && one == 1 {
+							step = true
 						}
 					}
 				}
-			}
-			if init && step && bound {
-				ok = true
-			}
-		})
+				bound := false
+				for _, ref := range *phi.Referrers() {
+					bo, isB := ref.(*ssa.BinOp)
+					if !isB {
+						continue
+					}
+					if op, x, y, _, _ := canonBin(bo); op == token.LEQ && x == ssa.Value(phi) && isLimit(y) {
+						bound = true
+					}
+				}
+				if init && step && bound {
+					ok = true
+				}
+			})
+		}
+		if loops == 0 && name != "(*column.Txn).rangeRead" {
+			// no loop of its own: the function delegates the iteration to rangeRead / rangeReadPair,
+			// whose loop is checked under its own name
+			ok = len(callsToDeep(fn, false, "(*column.Txn).rangeRead", "(*column.Txn).rangeReadPair")) > 0
+		}
 		h.Check(ok, name, r.P.Pos(fn.Pos()), "for block := 0; block <= len(index)>>bitmapShift; block++", "the per-block loop does not visit every block of the selection from 0 up to and including the last (partial) one: rows of the skipped block are neither filtered nor iterated")
 	}
 }
